@@ -34,5 +34,17 @@ Theorem C09_index_injective : forall n partition k k', (k < 2 ^ N.of_nat n)%N ->
 Proof. exact sep_index_inj. Qed.
 Print Assumptions C09_index_injective.
 
+(* the other direction on amplitude indices: composing (row, column) digits into an index and separating it again
+   gives the same (row, column), for every n and every list of axes *)
+Theorem C09_index_sep_undo : forall n partition (rows cols : list bool),
+  let m := mask_of n partition in
+  length rows = length (filter negb m) -> length cols = length (filter (fun b => b) m) ->
+  sep_index n partition (undo_digits n partition rows cols) = (undigits rows, undigits cols).
+Proof. exact sep_undo_index. Qed.
+Print Assumptions C09_index_sep_undo.
+
+Example ex_sep_undo : sep_index 3 [2; 0] (undo_digits 3 [2; 0] [true] [false; true]) = (1%N, 1%N).
+Proof. vm_compute. reflexivity. Qed.
+
 Example ex_sep : sep_index 3 [0] 5%N = (1%N, 1%N) /\ sep_index 3 [2; 0] 6%N = (1%N, 2%N).
 Proof. vm_compute. auto. Qed.
